@@ -362,7 +362,7 @@ def main():
     if chk.quick:
         configs = [dict(alphabet=3, batch=2, init=3, kmax=2)]
     else:
-        configs = [dict(alphabet=3, batch=2, init=3, kmax=3), dict(alphabet=4, batch=3, init=3, kmax=2)]
+        configs = [dict(alphabet=3, batch=2, init=2, kmax=3), dict(alphabet=4, batch=3, init=3, kmax=2)]
     cases = []
     for cfg in configs:
         alphabet = [float(v) for v in range(cfg["alphabet"])]
